@@ -136,6 +136,27 @@ Proof.
 Qed.
 Print Assumptions C19_case_hooks_prefix_behaviour_refuted.
 
+(* histories with data generation interleaved with (un)registration on the same objects: what a generation applies is
+   determined by the registration operations before it; earlier generations (how many, for which operations) do not matter *)
+Theorem C19_generation_uses_current_registrations : forall st g s t pre o post,
+  nth (count_generates pre) (gen_trace st g s t (pre ++ EGenerate o :: post)) []
+  = map (fun c => generation_hooks (fst (run_gen true st (ops_of pre))) g s t c o) all_targets.
+Proof. exact generation_uses_current_registrations. Qed.
+Print Assumptions C19_generation_uses_current_registrations.
+
+(* ... hence, from the initial state: hook f is applied by that generation for target c iff it is registered at that
+   moment under k_c on the global, schema or test dispatcher and the filters of its own expression select the operation *)
+Theorem C19_generation_now : forall scopes closures g s t pre o post c k f,
+  In c all_targets ->
+  (exists l, nth_error (nth (count_generates pre)
+                            (gen_trace (init scopes closures) g s t (pre ++ EGenerate o :: post)) [])
+                       (match c with TPath => 0 | TQuery => 1 | THeaders => 2 | TCookies => 3 | TBody => 4 | TCase => 5 end) = Some l
+             /\ (In (k, f) l <->
+                 exists di, in_scope g s t di /\ In f (all_by_name (fst (run scopes closures (ops_of pre))) di (NGen k c)) /\
+                            match own_chain (spec_run closures (ops_of pre)) f with Some fs => fset_match fs o = true | None => True end)).
+Proof. exact generation_now. Qed.
+Print Assumptions C19_generation_now.
+
 (* unregister removes exactly that function from every name of that dispatcher and touches nothing else *)
 Theorem C19_unregister_exact : forall fixed st di f st',
   step_gen fixed st (OUnregister di f) = (st', Done) ->
